@@ -15,6 +15,7 @@ import (
 	"github.com/buildbuildio/pebbles/playground"
 	"github.com/buildbuildio/pebbles/queryer"
 	"github.com/buildbuildio/pebbles/requests"
+	"github.com/buildbuildio/pebbles/simhook"
 	"github.com/samber/lo"
 
 	"github.com/vektah/gqlparser/v2"
@@ -265,6 +266,8 @@ func (g *Gateway) queryHandler(w http.ResponseWriter, r *http.Request) {
 				}, nil
 			}
 
+			simhook.Yield("gw.op.planned")
+
 			introspectionRes := g.parseIntrospectionQuery(plan, request)
 			if introspectionRes != nil {
 				introspectionRes.index = index
@@ -281,7 +284,11 @@ func (g *Gateway) queryHandler(w http.ResponseWriter, r *http.Request) {
 				GetParentTypeFromIDFunc: g.getParentTypeFromIDFunc,
 			})
 
+			simhook.Yield("gw.op.executed")
+
 			plan.ScrubFields.Clean(result)
+
+			simhook.Yield("gw.op.scrubbed")
 
 			return &Result{
 				Errors: gqlerrors.FormatError(err),
